@@ -157,6 +157,10 @@ def simulate(plan, taps_kwargs=None, keep_dir=False, on_segment=None):
                                      'n_attempts': hist['n_attempts']})
             if on_segment is not None:
                 on_segment(ss, hist, si)
+            if ret:
+                for op in plan.get('between') or []:
+                    if op.get('after_segment') == si:
+                        apply_between(ss, hist, op)
             if not ret:
                 break
     except SimCrash:
@@ -188,6 +192,37 @@ def simulate(plan, taps_kwargs=None, keep_dir=False, on_segment=None):
 # --------------------------------------------------------------------------------------------
 # oracles over the history
 # --------------------------------------------------------------------------------------------
+
+def tconst_candidates(ss):
+    """(model, parameter) pairs that are the time constant of at least one differential equation of a model in use."""
+    out = []
+    for name, mdl in ss.exist.tds.items() if hasattr(ss.exist, 'tds') else []:
+        if not mdl.n:
+            continue
+        for var in mdl.states.values():
+            tc = var.t_const
+            if tc is not None and hasattr(tc, 'vin') and tc.name in mdl.params and (name, tc.name) not in out:
+                if np.all(np.asarray(tc.v, dtype=float) > 0):
+                    out.append((name, tc.name))
+    return sorted(out)
+
+
+def apply_between(ss, hist, op):
+    """An operation of the user between two resumed segments (documented API only)."""
+    if op['kind'] == 'alter_tconst':
+        cands = tconst_candidates(ss)
+        if not cands:
+            return
+        name, pn = cands[int(op['pick'] * len(cands)) % len(cands)]
+        mdl = getattr(ss, name)
+        i = int(op['pick_dev'] * mdl.n) % mdl.n
+        old = float(mdl.params[pn].vin[i])
+        mdl.alter(pn, mdl.idx.v[i], old * op['factor'])
+        hist.setdefault('between', []).append({'after_segment': op['after_segment'], 'model': name, 'param': pn,
+                                               'dev': str(mdl.idx.v[i]), 'old': old, 'new': old * op['factor']})
+        pr = hist.setdefault('probes', {})
+        pr['tconst_altered_between_segments'] = pr.get('tconst_altered_between_segments', 0) + 1
+
 
 def t_reached(hist):
     """Time reached: dae.t at the end of the last segment, but never less than the last accepted (stored) instant --
